@@ -731,9 +731,46 @@ class Interp(ExprMixin, CallMixin, AnyMixin):
             out.append(("nothing-else-modified", True))
         return out
 
-    def exec_spec_loop(self, node, env, spec: LoopSpec, lo=None, hi=None, seq=None):
+    def next_over_symbolic(self, g, default, call_node):
+        """`next((elt for x in S if c), default)` with S a symbolic sequence is the search loop
+        `for x in S: if c: r = elt; break` / `else: r = default` (or `raise StopIteration`): it is executed as that loop, under the
+        loop specification registered for its position among the function's loops (source.loops_of numbers it with them).
+        Returns (value,) or UNDEF when the iterable is not a symbolic sequence (the caller then iterates concretely)."""
+        node, genv = g.node, g.env
+        if len(node.generators) != 1 or node.generators[0].is_async or genv.func is None:
+            return UNDEF
+        comp = node.generators[0]
+        src = self.eval(comp.iter, genv)
+        g.pre_iter = src
+        if not isinstance(src, SeqV):
+            return UNDEF
+        spec = self.find_loop_spec(genv, node)
+        if spec is None:
+            raise Unsupported(f"next() over a symbolic sequence without invariant at {genv.func.key}:{node.lineno}")
+        k = self.loop_ordinal(genv, node)
+        res = ast.Name(id="__next_result", ctx=ast.Store())
+        hit = [ast.Assign(targets=[res], value=node.elt, lineno=node.lineno), ast.Break()]
+        body = hit if not comp.ifs else [ast.If(test=comp.ifs[0] if len(comp.ifs) == 1 else ast.BoolOp(op=ast.And(), values=list(comp.ifs)),
+                                                body=hit, orelse=[])]
+        loop = ast.For(target=comp.target, iter=ast.Name(id="__next_iter", ctx=ast.Load()), body=body, orelse=[], type_comment=None)
+        ast.copy_location(loop, node)
+        ast.fix_missing_locations(loop)
+        sub = Env(genv.func, genv.module, parent=genv)
+        sub.handling = genv.handling
+        sub.vars["__next_iter"] = src
+        sub.vars["__next_result"] = UNDEF
+        self.exec_spec_loop(loop, sub, spec, lo=0, hi=Sym(src.length, "int"), seq=src, ordinal=k)
+        r = sub.vars.get("__next_result", UNDEF)
+        if r is UNDEF or r is self.POISON:
+            # exit without a hit
+            if default is UNDEF:
+                self.raise_builtin("StopIteration", call_node)
+            return (default,)
+        return (r,)
+
+    def exec_spec_loop(self, node, env, spec: LoopSpec, lo=None, hi=None, seq=None, ordinal=None):
         fkey = env.func.key
-        k = self.loop_ordinal(env, node)
+        k = ordinal if ordinal is not None else self.loop_ordinal(env, node)
         base = f"{fkey}/loop#{k}"
         is_for = isinstance(node, ast.For)
         path = self.path
